@@ -23,6 +23,7 @@ func VerifH_SYS_C08() {
 	b.allowWriteErr = verifParam("werr", 0) == 1
 	b.maxDials = 2*budget + 3
 	always := verifChoice("alwaysresub", 2) == 1
+	b.downgrade = verifChoice("downgrade", 2) == 1
 	verifSetRand(100)
 	rc := &RetryClient{}
 	unit := time.Second
